@@ -137,7 +137,18 @@ pub fn gen_scenario(property: &str, seed: u64) -> Scenario {
             prefix.push(Op::Poll);
             prefix.push(Op::Mine { txs: vec![TxRef::Penalty { d: 0, v: 0, len: 0 }] });
             prefix.push(Op::Poll);
-            prefix.push(Op::Reorg { depth: r.range(1, 3) as u32, branch: vec![] });
+            if r.chance(1, 2) {
+                // the reorg stays ABOVE the confirming block: the penalty keeps its confirmation while the window of
+                // recent blocks shrinks and refills (a late request in between looks the penalty up in the index)
+                let above = r.range(1, 3);
+                for _ in 0..above {
+                    prefix.push(Op::Mine { txs: vec![] });
+                }
+                prefix.push(Op::Poll);
+                prefix.push(Op::Reorg { depth: r.range(1, above) as u32, branch: vec![] });
+            } else {
+                prefix.push(Op::Reorg { depth: r.range(1, 3) as u32, branch: vec![] });
+            }
             t0.push(Op::Poll);
             t1.push(match r.below(3) {
                 0 => add(0, 1, 0, 0),
@@ -401,6 +412,14 @@ pub fn explore_scenario(sc: &Scenario, n_sched: usize) -> ScenarioOutcome {
             });
             return out;
         }
+        if let Some(d) = &r.conf_mismatch {
+            out.found.push(CFound {
+                property: "C04",
+                signature: "C04|confirmed_height|request_between_chain_events".into(),
+                detail: format!("sequential order {o:?}: {d}"),
+                strat: None,
+            });
+        }
         if !refs.contains(&r.projection) {
             refs.push(r.projection);
         }
@@ -456,6 +475,14 @@ pub fn explore_scenario(sc: &Scenario, n_sched: usize) -> ScenarioOutcome {
                 strat: replay,
             });
             continue;
+        }
+        if let Some(d) = &r.conf_mismatch {
+            out.found.push(CFound {
+                property: "C04",
+                signature: "C04|confirmed_height|concurrent".into(),
+                detail: format!("threads [{kinds}] under {spec:?}: {d}"),
+                strat: replay.clone(),
+            });
         }
         if let Some(d) = &r.stamp_mismatch {
             out.found.push(CFound {
@@ -521,6 +548,15 @@ pub fn recheck(sc: &Scenario, spec: &Option<StratSpec>, property: &str, signatur
                         o.found.push(CFound { property: "C11", signature: sig, detail: d, strat: None });
                     } else if let Err(e) = &r.live {
                         o.found.push(CFound { property: "C11", signature: format!("C11|not_live|concurrent|{}", first_line(e)), detail: e.clone(), strat: None });
+                    } else if property == "C04" {
+                        if let Some(d) = &r.conf_mismatch {
+                            o.found.push(CFound {
+                                property: "C04",
+                                signature: "C04|confirmed_height|concurrent".into(),
+                                detail: d.clone(),
+                                strat: None,
+                            });
+                        }
                     } else if property == "C08" {
                         if let Some(d) = &r.stamp_mismatch {
                             o.found.push(CFound {
